@@ -378,6 +378,26 @@ def run(tier, seed, proof):
             res.impl_violations.append((f"C18:churn:{l1.norm_sig(msg)}", "hygiene: " + msg,
                                         common.write_case(PROP, f"churn-{n}", churn_scenario(n, seed), tier, seed, ext="mtscn")))
             break
+    # the same with the process' standard input closed before iv_init: the first descriptor the library creates (its epoll descriptor) is
+    # number 0, a perfectly valid descriptor that must be used and released like any other: one descriptor fewer is open at the end
+    if base is not None and not res.impl_violations:
+        for n in ([1, 3] if tier == "quick" else [1, 2, 4]):
+            scn = churn_scenario(n, seed)
+            scn[0] += " closefd0"
+            out, err, rc = run_mt(scn)
+            res.evaluations += 1
+            m = re.search(r"LEDGER-END fds=(\d+) heap=\d+ leaks=(\d+)", out)
+            msg = None
+            if rc != 0 or not m:
+                msg = f"thread-churn run with standard input closed ({n} threads) aborted: {common.san_line(err) or out[-200:]}"
+            elif int(m.group(1)) != int(base) - 1:
+                msg = (f"with standard input closed before iv_init {m.group(1)} descriptors are open at the end, {int(base) - 1} expected ({base} with "
+                       f"standard input open): a descriptor the library created with number 0 was not released")
+            elif "INIT method=epoll-timerfd" not in out:
+                msg = "with standard input closed before iv_init the loop did not select the epoll-timerfd method although nothing is excluded or missing"
+            if msg:
+                res.impl_violations.append((f"C18:churn0:{l1.norm_sig(msg)}", "hygiene: " + msg, common.write_case(PROP, f"churn0-{n}", scn, tier, seed, ext="mtscn")))
+                break
     return res
 
 
